@@ -1,4 +1,5 @@
 import Verif.Generated.FactsOK.Common
+import Verif.Generated.FactsOK.SrcMixin
 import Verif.Properties.C18
 
 namespace Generated
